@@ -38,6 +38,7 @@ type input struct {
 	Race    *race    `json:"race,omitempty"`
 	Srv     *srv     `json:"server,omitempty"`
 	Blocked *blocked `json:"blocked,omitempty"`
+	Backlog *backlog `json:"backlog,omitempty"`
 }
 
 // scriptClass derives the class from the script alone (never from the outcome): it
@@ -139,6 +140,8 @@ func run(raw json.RawMessage) lib.Case {
 		return runServer(in)
 	case "blocked":
 		return runBlocked(in)
+	case "backlog":
+		return runBacklog(in)
 	}
 	panic("unknown kind " + in.Kind)
 }
@@ -194,6 +197,10 @@ func corpus() []interface{} {
 	out = append(out, input{Kind: "blocked", TCP: true, Blocked: &blocked{Size: 512, Stops: 1}})
 	out = append(out, input{Kind: "blocked", TCP: true, Blocked: &blocked{Size: 1024, Stops: 2}})
 	out = append(out, serverCorpus()...)
+	// Stop while an in-memory peer does not read its backlog (forwarder parked on its full queue)
+	out = append(out, input{Kind: "backlog", Backlog: &backlog{Msgs: 260, Stops: 1}})
+	out = append(out, input{Kind: "backlog", Backlog: &backlog{Msgs: 330, Stops: 2}})
+	out = append(out, input{Kind: "backlog", Backlog: &backlog{Msgs: 40, Stops: 1}})
 	return out
 }
 
@@ -226,6 +233,14 @@ func generate(rng *rand.Rand, tier string) []interface{} {
 	}
 	for i := 0; i < nserver; i++ {
 		out = append(out, genServer(rng, i%3 == 0))
+	}
+	// (last, so that the inputs generated above stay the same for a given seed)
+	nbacklog := 2
+	if tier != "quick" {
+		nbacklog = 16
+	}
+	for i := 0; i < nbacklog; i++ {
+		out = append(out, genBacklog(rng))
 	}
 	return out
 }
